@@ -264,6 +264,14 @@ Section WithUri.
     | None => None
     end.
 
+  (* Request::generate in full: header lines folded by rhymessage where they exceed the limit *)
+  Definition req_generate_full (cfg : rcfg) (meth : bytes) (target : bytes)
+             (hs : list header) (body : bytes) : gen_result :=
+    match hdr_generate_full (hl cfg) hs with
+    | GOk h => GOk (meth ++ [SP] ++ target ++ [SP] ++ HTTP11 ++ CRLF ++ h ++ body)
+    | r => r
+    end.
+
 End WithUri.
 
 Arguments r_phase {uri}. Arguments r_method {uri}. Arguments r_target {uri}.
